@@ -806,6 +806,7 @@ Section XSim2.
       + apply STEP. apply x_pause_sim2; auto.
       + apply STEP. apply x_resume_sim2; auto.
       + simpl. auto.
+      + simpl. auto.
   Qed.
 End XSim2.
 
